@@ -464,10 +464,10 @@ Definition xsys_of (s : ent) : option (N * ent) :=
 (* Command::apply of the five commands that enter the runner: draw a ticket, park the metadata (commands.rs:150-293) *)
 Definition prepare_cmd (c : cmd) (w : world) : option (ent * setup * cleanup * world) :=
   match c with
-  | CSysCmd t => Some (t, SuDefault, ClDefault, w)
+  | CSysCmd t => Some (t, SuDefault, ClDefault, w <| g_dprep ::= fun l => l ++ [t] |>)
   | CEventCmd t d =>
       let (k, w) := fresh_ticket w in Some (t, SuSysEvent k, ClSysEvent, note_prep k t [PiSe d] (w <| tr_se ::= trk_prepare k t d |>))
-  | CReact (RcResource t) => Some (t, SuDefault, ClDefault, w)
+  | CReact (RcResource t) => Some (t, SuDefault, ClDefault, w <| g_dprep ::= fun l => l ++ [t] |>)
   | CReact (RcEntity src rt t) =>
       let (k, w) := fresh_ticket w in Some (t, SuEntity k, ClEntity, note_prep k t [PiEr src rt] (w <| tr_er ::= trk_prepare k t (t, src, rt) |>))
   | CReact (RcDespawn src t h) =>
